@@ -65,13 +65,14 @@ impl OutputType {
     /// Create a pager and write all data into it. Waits until the pager exits.
     /// The expectation is that the program will exit afterwards.
     pub fn oneshot_write(data: String) -> io::Result<()> {
+        // (a pager command that cannot be parsed: write to stdout)
         let mut output_type = OutputType::from_mode(
             &DeltaEnv::init(),
             PagingMode::QuitIfOneScreen,
             None,
             &PagerCfg::default(),
         )
-        .unwrap();
+        .unwrap_or_else(|_| OutputType::stdout());
         let mut writer = output_type.handle().unwrap();
         write!(&mut writer, "{}", data)
     }
@@ -155,7 +156,7 @@ impl OutputType {
         })
     }
 
-    fn stdout() -> Self {
+    pub fn stdout() -> Self {
         OutputType::Stdout(io::stdout())
     }
 
